@@ -827,7 +827,22 @@ def rt_run(case):
     return RT.run_oracle(case['prop'], case['spec'])
 
 
+def c20_cases(tier, rng):
+    from replay import dotcheck
+    return dotcheck.cases(tier, rng)
+
+
+def c20_run(case):
+    from replay import dotcheck
+    return dotcheck.run(case)
+
+
 PROPS = {
+    'C20': (c20_cases, c20_run, 'every label of a 27-string alphabet (quotes, newlines, DOT punctuation, keywords, non-ASCII) at every '
+            'position of a fixed tree, all flag assignments, all requirement DAGs over up to 3 (quick) / sampled 4 (thorough) members '
+            'each of 7 shapes (atomic, empty / 1-job / 2-job nested schedulers, depth-3 nestings), 400 / 6000 random trees up to depth 3; '
+            'dot_format() parsed by an independent DOT-subset parser and compared with the tree, list() output read back; '
+            'non-trivial = every distinct tree'),
     'C15': (c15_cases, c15_run, 'all loop-free digraphs up to 4 (quick) / sampled 5 (thorough) nodes at three '
             'placements, random digraphs on 5-8 nodes, add/remove mutation sequences; non-trivial = at least one edge'),
     'C18': (c18_cases, c18_run, 'all DAGs up to 4 nodes: every bypass target, start/end subsets of size <= 2 with random keep flags, '
@@ -870,6 +885,7 @@ def main(argv):
     n = 0
     seen = set()
     failures, samples = [], []
+    tagged = {}
     for case in cases_fn(tier, rng):
         n += 1
         key = json.dumps(case, sort_keys=True)
@@ -879,8 +895,13 @@ def main(argv):
             err = run(case)
         except Exception as exc:          # the real code crashed on an admissible input
             err = 'exception %r' % (exc,)
-        if err and len(failures) < 5:
-            failures.append({'id': '%s-%d' % (case['kind'], n), 'what': err, 'case': case})
+        if err:
+            # failures carrying a [tag] (candidates for a listed known finding) are capped per tag so that
+            # they never crowd out a different failure
+            tag = err[:err.index(']') + 1] if err.startswith('[') and ']' in err else ''
+            tagged[tag] = tagged.get(tag, 0) + 1
+            if tagged[tag] <= (2 if tag else 5):
+                failures.append({'id': '%s-%d' % (case['kind'], n), 'what': err, 'case': case})
         if n % 997 == 1 and len(samples) < 5:
             samples.append(case)
     print(json.dumps({'evaluations': n, 'distinct_nontrivial': len(seen), 'failures': failures,
